@@ -79,7 +79,23 @@ def run(ctx):
               {"src": "let x = ;", "path": None, "mods": {}, "kind": "script"},
               {"src": "", "path": None, "mods": {}, "kind": "script"},
               {"src": "export const a = 1; throw new Error('mod');", "path": "/m/main", "mods": {}, "kind": "module"}]
-    lines = [json.dumps({"src": c["src"], "path": c["path"], "mods": c["mods"]}) for c in cases]
+    # sessions: one to three earlier programs run in the same interpreter through the same entry point (failing and
+    # completing ones, with and without a module path, with exports collected before the failure, with orders left behind)
+    def session_prog(j):
+        tail = rng.choice(["throw new Error('dies %d');" % j, "undefinedFn%d();" % j, "null.x;", "'done %d'" % j, "'done %d'" % j])
+        exp = rng.choice(["export const leaked%d = %d;" % (j, j), "export let s%d = 'v'; export function f%d() { return %d; }" % (j, j, j), "export default %d;" % j, "const plain%d = 1;" % j])
+        mid = rng.choice(["", "console.log('run %d');" % j, "globalThis.g%d = (globalThis.g%d || 0) + 1;" % (j % 2, j % 2), "export const late%d = [%d];" % (j, j)])
+        return {"src": "%s\n%s\n%s" % (exp, mid, tail), "path": rng.choice([None, None, "/m/pre%d" % j, "/m/main"])}
+    for i in range(60 if ctx.tier == "quick" else 1500):
+        pre = [session_prog(j) for j in range(rng.randint(1, 3))]
+        last = session_prog(9)
+        if rng.random() < 0.6:
+            last["src"] = "export const real = typeof globalThis.g0 + ':' + typeof globalThis.g1;\n'last'"
+            last["path"] = rng.choice(["/m/main", "/m/last", None])
+        cases.append({"src": last["src"], "path": last["path"], "mods": {}, "kind": "session", "pre": pre})
+    cases.append({"src": "export const real = 2;\n'ok'", "path": "/m/main", "mods": {}, "kind": "session",
+                  "pre": [{"src": "export const leaked = 1;\nthrow new Error('anonymous run dies after exporting');", "path": None}]})
+    lines = [json.dumps({"src": c["src"], "path": c["path"], "mods": c["mods"], "pre": c.get("pre", [])}) for c in cases]
     got = common.harness(["entry"], lines, timeout=900)
     names = ["eval(+step)", "prepare+step", "prepare+step with interleaved API reads and collect()", "C API tsrun_run", "C API tsrun_step"]
     hist = {}
@@ -90,6 +106,8 @@ def run(ctx):
         hist[c["kind"]] = hist.get(c["kind"], 0) + 1
         outs = g.split("\t")
         case = {"program": c["src"][:1200], "path": c["path"], "impl": [o[:250] for o in outs]}
+        if c.get("pre"):
+            case["earlier_programs_in_the_same_interpreter"] = c["pre"]
         if len(outs) != 5:
             ctx.prop_fail("crash: not all entry points answered (%s)" % g[-80:], case); continue
         distinct.add(outs[1])
@@ -173,7 +191,7 @@ def run(ctx):
                 ctx.known(f["id"], f["what"])
     ctx.cov["distinct_nontrivial"] = len(distinct)
     ctx.cov["rule"] = ("generated scripts, entry modules with exports, import graphs (from C09's generator) and order-issuing programs (awaited / not awaited / from native callbacks / ending in errors), each through "
-                       "5 entry points (transcript = import requests, order traffic with payloads, result as JSON, exports, console); generated modules through the 3 module roles; "
+                       "5 entry points (transcript = import requests, order traffic with payloads, result as JSON, exports, console); sessions (one to three earlier programs, failing or completing, with or without a module path, run in the same interpreter through the same entry point before the program compared); generated modules through the 3 module roles; "
                        "plus the textual identity of the two result-mapping copies. distinct_nontrivial = distinct transcripts")
     ctx.cov["input_distribution"] = hist
     ctx.sample({"program": cases[3]["src"][:300], "transcripts": got[3].split("\t")[:2]})
